@@ -126,6 +126,7 @@ struct world {
 extern struct world W;
 
 void w_begin(void);                                          /* drop previous world */
+extern bool NEXT_WORLD_USE_MUTEX;                            /* the next world is initialised with the mock mutex interface */
 struct cat_command *w_group(size_t ncmd, bool disable);      /* returns the group's zeroed command array */
 struct cat_variable *w_vars(struct cat_command *c, size_t nv);
 void *w_vdata(struct cat_variable *v, size_t size);          /* exact-size storage */
